@@ -22,13 +22,15 @@ type ibatch struct {
 	b     []bool
 	words []uint64
 	ckind string
+	rbuf  bufSpec // receiver's result buffer (label form and packed-bit form)
+	sbuf  bufSpec // sender's result buffer (packed-bit form only)
 }
 
 func (b ibatch) spec() string {
 	if b.kind == 'B' {
-		return fmt.Sprintf("B%d:%s", b.n, wordsHex(b.words))
+		return fmt.Sprintf("B%d:%s:%s:%s", b.n, wordsHex(b.words), b.rbuf, b.sbuf)
 	}
-	return fmt.Sprintf("%c%d:%s", b.kind, b.n, boolsStr(b.b))
+	return fmt.Sprintf("%c%d:%s:%s", b.kind, b.n, boolsStr(b.b), b.rbuf)
 }
 
 type ibatchRes struct {
@@ -37,6 +39,11 @@ type ibatchRes struct {
 	rcvd   []ot.Label
 	swords []uint64
 	rwords []uint64
+	// what the result slices held before the call
+	initL  []ot.Label
+	initRW []uint64
+	initSW []uint64
+	frame  string // non-empty: an arena position outside the slice changed
 }
 
 func packWords(b []bool, garbage func() uint64) []uint64 {
@@ -77,14 +84,14 @@ func newBase(kind string, r *hxlib.Rng) (ot.OT, ot.OT) {
 // kind and transport are harness-side parameters (named in the op line for
 // replay, ignored by the model because the result does not depend on them).
 func iknpCase(o *hxlib.Out, r *hxlib.Rng, idx int, seed uint64, base, transport string, stape, rtape []byte,
-	batches []ibatch) (string, string) {
+	batches []ibatch, arenaL, arenaW int) (string, string) {
 
 	specs := make([]string, len(batches))
 	for i, b := range batches {
 		specs[i] = b.spec()
 	}
-	op := fmt.Sprintf("c06 iknp %s %s %s %s %s", base, transport, hxlib.Hex(stape), hxlib.Hex(rtape),
-		strings.Join(specs, ";"))
+	op := fmt.Sprintf("c06 iknpb %s %s %s %s %d %d %s", base, transport, hxlib.Hex(stape), hxlib.Hex(rtape),
+		arenaL, arenaW, strings.Join(specs, ";"))
 	replay := fmt.Sprintf("hx c06 iknp -seed %d -only %d", seed, idx)
 
 	l := newLink(transport)
@@ -103,14 +110,19 @@ func iknpCase(o *hxlib.Out, r *hxlib.Rng, idx int, seed uint64, base, transport 
 			return err
 		}
 		delta = snd.Delta
+		sw := &wordArena{a: make([]uint64, arenaW)}
 		for i, b := range batches {
 			switch b.kind {
 			case 'B':
-				w := make([]uint64, (b.n+63)/64)
+				w, before := sw.take(b.sbuf, (b.n+63)/64)
+				res[i].initSW = append([]uint64(nil), w...)
 				if err := snd.SendBits(b.n, w); err != nil {
 					return fmt.Errorf("batch %d: %v", i, err)
 				}
-				res[i].swords = w
+				res[i].swords = append([]uint64(nil), w...)
+				if ok, at := sw.frameOK(b.sbuf, b.n, before); !ok {
+					res[i].frame += fmt.Sprintf("SendBits changed word %d of the sender's array outside its %d result bits; ", at, b.n)
+				}
 			default:
 				sent, err := snd.Send(b.n, b.kind == 'M')
 				if err != nil {
@@ -130,20 +142,31 @@ func iknpCase(o *hxlib.Out, r *hxlib.Rng, idx int, seed uint64, base, transport 
 			return err
 		}
 		l.r.take()
+		rl := &labelArena{a: make([]ot.Label, arenaL)}
+		rw := &wordArena{a: make([]uint64, arenaW)}
 		for i, b := range batches {
 			switch b.kind {
 			case 'B':
-				w := make([]uint64, (b.n+63)/64)
+				w, before := rw.take(b.rbuf, (b.n+63)/64)
+				res[i].initRW = append([]uint64(nil), w...)
 				if err := rcv.ReceiveBits(b.words, w, b.n); err != nil {
 					return fmt.Errorf("batch %d: %v", i, err)
 				}
-				res[i].rwords = w
+				res[i].rwords = append([]uint64(nil), w...)
+				if ok, at := rw.frameOK(b.rbuf, b.n, before); !ok {
+					res[i].frame += fmt.Sprintf("ReceiveBits changed word %d of the receiver's array outside its %d result bits; ", at, b.n)
+				}
 			default:
-				out := make([]ot.Label, b.n)
+				out, before := rl.take(b.rbuf, b.n)
+				res[i].initL = append([]ot.Label(nil), out...)
 				if err := rcv.Receive(b.b, out, b.kind == 'M'); err != nil {
 					return fmt.Errorf("batch %d: %v", i, err)
 				}
-				res[i].rcvd = out
+				res[i].rcvd = append([]ot.Label(nil), out...)
+				if ok, at := rl.frameOK(b.rbuf, b.n, before); !ok {
+					res[i].frame += fmt.Sprintf("Receive changed label %d of the receiver's array outside result[%d:%d]; ", at,
+						b.rbuf.off, b.rbuf.off+b.n)
+				}
 			}
 			res[i].u, _ = l.r.take()
 			done[i] = true
@@ -153,7 +176,7 @@ func iknpCase(o *hxlib.Out, r *hxlib.Rng, idx int, seed uint64, base, transport 
 	es, er, to := runPair(l, fs, fr, 30*time.Second)
 	if es != nil || er != nil || to {
 		o.Fail("c06-iknp-error", map[string]any{"case": idx, "replay": replay, "sender_err": errStr(es),
-			"receiver_err": errStr(er), "timeout": to, "batches": clipS(strings.Join(specs, ";"), 300),
+			"receiver_err": errStr(er), "timeout": to, "batches": clipS(batchesBrief(batches), 300),
 			"base": base, "transport": transport})
 		return op, "error"
 	}
@@ -162,6 +185,10 @@ func iknpCase(o *hxlib.Out, r *hxlib.Rng, idx int, seed uint64, base, transport 
 	for i, b := range batches {
 		if i > 0 {
 			sb.WriteByte(';')
+		}
+		if res[i].frame != "" {
+			o.Fail("c06-buffer-frame", map[string]any{"case": idx, "replay": replay, "batch": i, "n": b.n,
+				"kind": string(b.kind), "what": res[i].frame, "rbuf": b.rbuf.String(), "sbuf": b.sbuf.String()})
 		}
 		if b.kind == 'B' {
 			fmt.Fprintf(&sb, "B:u=%s/s=%s/r=%s", chunksHex(res[i].u), wordsHex(res[i].swords), wordsHex(res[i].rwords))
@@ -174,6 +201,19 @@ func iknpCase(o *hxlib.Out, r *hxlib.Rng, idx int, seed uint64, base, transport 
 	return op, sb.String()
 }
 
+// batchesBrief: kind, size and buffers of every call (no payload).
+func batchesBrief(bs []ibatch) string {
+	var ds []string
+	for _, b := range bs {
+		if b.kind == 'B' {
+			ds = append(ds, fmt.Sprintf("B%d/%s[r=%s s=%s]", b.n, b.ckind, b.rbuf, b.sbuf))
+		} else {
+			ds = append(ds, fmt.Sprintf("%c%d/%s[r=%s]", b.kind, b.n, b.ckind, b.rbuf))
+		}
+	}
+	return strings.Join(ds, ";")
+}
+
 func clipS(s string, n int) string {
 	if len(s) > n {
 		return s[:n] + "..."
@@ -184,6 +224,10 @@ func clipS(s string, n int) string {
 // oracleLabels: received_i = sent_i xor choice_i*Delta, for every i < n.
 func oracleLabels(o *hxlib.Out, idx int, replay string, bi int, b ibatch, r ibatchRes, delta ot.Label, base, transport string) {
 	o.Count("oracle_iknp_label_batches")
+	o.Count("iknp_label_buf_" + b.rbuf.class())
+	if anyNonZeroL(r.initL) {
+		o.Count("iknp_label_buf_nonzero_before_call")
+	}
 	if len(r.sent) != b.n || len(r.rcvd) != b.n {
 		o.Fail("c06-label-corr", map[string]any{"case": idx, "replay": replay, "batch": bi, "n": b.n,
 			"kind": string(b.kind), "what": "length", "sent": len(r.sent), "rcvd": len(r.rcvd)})
@@ -209,6 +253,9 @@ func oracleLabels(o *hxlib.Out, idx int, replay string, bi int, b ibatch, r ibat
 			"kind": string(b.kind), "wrong": wrong, "first_wrong": first, "choices": b.ckind,
 			"delta": delta.String(), "sent": r.sent[first].String(), "rcvd": r.rcvd[first].String(),
 			"choice": b.b[first], "base": base, "transport": transport,
+			"result_buffer": b.rbuf.String(), "result_buffer_class": b.rbuf.class(),
+			"result_buffer_nonzero_before_call": anyNonZeroL(r.initL),
+			"held_before": r.initL[first].String(),
 			"n_mod": fmt.Sprintf("8:%d 64:%d 128:%d 512:%d", b.n%8, b.n%64, b.n%128, b.n%512)})
 	}
 }
@@ -235,12 +282,19 @@ var knownBitsReported int
 // oracleBits: packed-bit form r_i = s_i xor (b_i and Delta.Bit(0)).
 func oracleBits(o *hxlib.Out, idx int, replay string, bi int, b ibatch, r ibatchRes, delta ot.Label, base, transport string) {
 	o.Count("oracle_iknp_bits_batches")
+	o.Count("iknp_bits_rbuf_" + b.rbuf.class())
+	o.Count("iknp_bits_sbuf_" + b.sbuf.class())
 	d0 := delta.Bit(0) == 1
 	need := (b.n + 63) / 64
-	if len(r.swords) != need || len(r.rwords) != need {
+	if len(r.swords) != need+b.sbuf.extra || len(r.rwords) != need+b.rbuf.extra {
 		o.Fail("c06-bits-corr", map[string]any{"case": idx, "replay": replay, "batch": bi, "n": b.n, "what": "length"})
 		return
 	}
+	if anyNonZeroW(r.initRW[:need]) || anyNonZeroW(r.initSW[:need]) {
+		oracleBitsDirty(o, idx, replay, bi, b, r, d0, base, transport)
+		return
+	}
+	o.Count("iknp_bits_clean_buffers")
 	wrong := 0
 	first := -1
 	unc := uncoveredFrom(b.n)
@@ -309,6 +363,50 @@ func oracleBits(o *hxlib.Out, idx int, replay string, bi int, b ibatch, r ibatch
 }
 
 // genBatches: 1..4 calls on one instance, mixing the three forms.
+var knownDirtyReported int
+
+// oracleBitsDirty: packed-bit call whose result slices were not zero before
+// the call.  The property (and the doc comments of SendBits / ReceiveBits:
+// "Existing contents are overwritten") asks for r_i = s_i xor (b_i and
+// Delta.Bit(0)) at every position whatever the buffers held.
+func oracleBitsDirty(o *hxlib.Out, idx int, replay string, bi int, b ibatch, r ibatchRes, d0 bool, base, transport string) {
+	o.Count("iknp_bits_dirty_buffers")
+	wrong, first := 0, -1
+	onlyStale := true // every wrong position had a set bit in one of the slices before the call
+	for i := 0; i < b.n; i++ {
+		want := bitOf(r.swords, i) != (bitOf(b.words, i) && d0)
+		if bitOf(r.rwords, i) != want {
+			if first < 0 {
+				first = i
+			}
+			wrong++
+			if !bitOf(r.initRW, i) && !bitOf(r.initSW, i) {
+				onlyStale = false
+			}
+		}
+	}
+	o.CountN("oracle_iknp_bits_positions", b.n)
+	if wrong == 0 {
+		return
+	}
+	if onlyStale {
+		o.Count("bits_dirty_buffer_wrong_batches")
+		knownDirtyReported++
+		if knownDirtyReported > 3 {
+			o.Counters["oracle_fail"]++
+			return
+		}
+	}
+	o.Fail("c06-bits-dirty-buffer", map[string]any{"case": idx, "replay": replay, "batch": bi, "n": b.n,
+		"wrong": wrong, "first_wrong": first, "choices": b.ckind, "delta_bit0": d0,
+		"only_positions_with_stale_bits": fmt.Sprint(onlyStale),
+		"rbuf": b.rbuf.String(), "sbuf": b.sbuf.String(), "rbuf_class": b.rbuf.class(), "sbuf_class": b.sbuf.class(),
+		"base": base, "transport": transport,
+		"swords": clipS(wordsHex(r.swords), 200), "rwords": clipS(wordsHex(r.rwords), 200),
+		"rwords_before": clipS(wordsHex(r.initRW), 200), "swords_before": clipS(wordsHex(r.initSW), 200),
+		"cwords": clipS(wordsHex(b.words), 200)})
+}
+
 func genBatches(r *hxlib.Rng, first int, maxN int, kinds string, firstKind byte) []ibatch {
 	nb := 1 + r.Intn(3)
 	if r.Intn(6) == 0 {
@@ -373,9 +471,39 @@ func iknpMode(args []string) int {
 			batches[0].words = packWords(batches[0].b, nil)
 		}
 		nM := 0
+		maxL, maxW := 0, 0
 		for _, b := range batches {
 			if b.kind == 'M' {
 				nM++
+			}
+			if b.kind == 'B' {
+				if w := (b.n + 63) / 64; w > maxW {
+					maxW = w
+				}
+			} else if b.n > maxL {
+				maxL = b.n
+			}
+		}
+		// the parties' long-lived arrays: as long as the longest call needs,
+		// often a little longer (slices at an offset, longer-than-needed
+		// packed-bit slices)
+		arenaL, arenaW := maxL, maxW
+		if r.Intn(3) > 0 {
+			arenaL += 1 + r.Intn(9)
+			arenaW += 1 + r.Intn(3)
+		}
+		for j := range batches {
+			b := &batches[j]
+			if b.kind == 'B' {
+				b.rbuf = genBuf(r, (b.n+63)/64, arenaW, false, j == 0)
+				b.sbuf = genBuf(r, (b.n+63)/64, arenaW, false, j == 0)
+			} else {
+				b.rbuf = genBuf(r, b.n, arenaL, true, j == 0)
+				b.sbuf = bufSpec{fresh: true}
+			}
+			if j == 0 && i < 2*len(sweepSizes) && i%4 < 2 {
+				// half of the size sweep on fresh buffers
+				b.rbuf, b.sbuf = bufSpec{fresh: true}, bufSpec{fresh: true}
 			}
 		}
 		stape := r.Bytes(16)
@@ -397,7 +525,7 @@ func iknpMode(args []string) int {
 			base = "co"
 		}
 		transport := []string{"otpipe", "p2p"}[r.Intn(2)]
-		op, res := iknpCase(o, r, i, cf.Seed, base, transport, stape, rtape, batches)
+		op, res := iknpCase(o, r, i, cf.Seed, base, transport, stape, rtape, batches, arenaL, arenaW)
 		o.Op(op, res)
 		o.Count("iknp_cases")
 		o.Count("iknp_base_" + base)
@@ -412,11 +540,8 @@ func iknpMode(args []string) int {
 			countSize(o, "iknp", b.n)
 		}
 		if i < 3 {
-			var ds []string
-			for _, b := range batches {
-				ds = append(ds, fmt.Sprintf("%c%d/%s", b.kind, b.n, b.ckind))
-			}
-			o.Sample(map[string]any{"case": i, "mode": "iknp", "batches": ds, "base": base, "transport": transport})
+			o.Sample(map[string]any{"case": i, "mode": "iknp", "batches": strings.Split(batchesBrief(batches), ";"),
+				"arena_labels": arenaL, "arena_words": arenaW, "base": base, "transport": transport})
 		}
 	}
 	return 0
